@@ -1023,7 +1023,7 @@ func (w *World) M20(rec *ScanRecord) []Violation {
 		if i := strings.LastIndex(first, "/escalator/"); i >= 0 {
 			first = first[i+len("/escalator/"):]
 		}
-		if i := strings.Index(first, "("); i > 0 {
+		if i := strings.LastIndex(first, "("); i > 0 {
 			first = first[:i]
 		}
 		out = append(out, viol("C20", "panic:"+first, "RunOnce panicked: %v\n%s", rec.Panic, rec.Stack))
